@@ -2,7 +2,12 @@
 
 package exit
 
-import "github.com/postalsys/muti-metroo/internal/identity"
+import (
+	"net"
+	"time"
+
+	"github.com/postalsys/muti-metroo/internal/identity"
+)
 
 // VerifConn describes one tracked exit connection.
 type VerifConn struct {
@@ -35,3 +40,8 @@ func (h *Handler) VerifAllowedRoutes() []string {
 
 // VerifSeedDNS pre-seeds the resolver cache (no real DNS in the sandbox).
 func (h *Handler) VerifResolver() *Resolver { return h.resolver }
+
+// VerifSeedDNS pre-seeds the resolver cache so that a name resolves without real DNS.
+func (h *Handler) VerifSeedDNS(name string, ip net.IP) {
+	h.resolver.setCache(name, ip, time.Hour)
+}
